@@ -80,6 +80,9 @@ DECORATED = {
     'Phospho#g1(0.9)': 'Phospho', '15.995#g1': '15.995', 'Oxidation|U:35': 'Oxidation',
     'INFO:a|INFO:b|Formula:C2H2O': 'Formula:C2H2O', 'Obs:+15.99|INFO:x': 'Obs:+15.99',
     'Oxidation|Obs:+15.99': 'Oxidation', 'Formula:C2H2O|INFO:x': 'Formula:C2H2O',
+    # a mass shift FIRST, then a name of the same mass (to 4e-7): the mass side reads the number, the composition side may read
+    # the name; alternatives that contradict each other in mass are outside every property (DESIGN section 10)
+    'Obs:+42.010565|Acetyl': 'Acetyl', '+42.010565|Acetyl': 'Acetyl', '42.010565|U:1': 'Acetyl',
 }
 ZERO_MASS = ['#g1']      # bare localisation tag: no mass of its own
 NO_MASS = ['INFO:note']  # parses, but has no mass (mass() raises)
